@@ -297,8 +297,15 @@ def run(prog, ctx):
             if (site.get("callee") or "") in probe_fns and len(site["args"]) == 3:
                 n_g += 1
                 res.obligations += 1
-                tab = C.resolve_var(prog, f, s.operand(site["args"][0]), s)
-                lg = C.resolve_var(prog, f, s.operand(site["args"][2]), s)
+                # which argument is the table and which its lg: by the callee's parameter types, not by position
+                cal_ = prog.fns[site["callee"]]
+                i_tab = [i for i in range(cal_.argc) if "[u64]" in cal_.local_ty(i + 1)]
+                i_lg = [i for i in range(cal_.argc) if cal_.local_ty(i + 1) == "u8"]
+                if len(i_tab) != 1 or len(i_lg) != 1:
+                    res.undecided += 1
+                    continue
+                tab = C.resolve_var(prog, f, s.operand(site["args"][i_tab[0]]), s)
+                lg = C.resolve_var(prog, f, s.operand(site["args"][i_lg[0]]), s)
                 want = None
                 alloc = C.find_sub(tab, lambda t: t[0] == "call" and t[1].endswith("from_elem"))
                 if alloc is not None:
